@@ -352,21 +352,21 @@ def rnd_input(rng):
     if kind in ("list", "stream"):
         mode = rng.random()
         if mode < 0.35:
-            pool = [{"t": "i", "n": k} for k in (1, 2, 3)]
+            pool = [{"t": "i", "n": k} for k in (1, 2, 3, 0)]
         elif mode < 0.5:
             pool = [{"t": "s", "s": c} for c in "ab"]
         else:
-            pool = [{"t": "i", "n": k} for k in (1, 2, 3)] + [{"t": "s", "s": c} for c in "ab"]
+            pool = [{"t": "i", "n": k} for k in (1, 2, 3, 0)] + [{"t": "s", "s": c} for c in "ab"]
     elif kind == "str":
         pool = [{"t": "s", "s": c} for c in "ab"]
     elif kind == "text":
         pool = [{"t": "s", "s": c} for c in "aab \n"]
     elif kind == "dict":
-        pool = [{"t": "i", "n": k} for k in (1, 2, 3)] + [{"t": "s", "s": c} for c in "ab"]
+        pool = [{"t": "i", "n": k} for k in (1, 2, 3, 0)] + [{"t": "s", "s": c} for c in "ab"]
         n = rng.randint(0, 3)
         return kind, rng.sample(pool, n)
     else:
-        pool = [{"t": "i", "n": k} for k in (1, 2, 3)]
+        pool = [{"t": "i", "n": k} for k in (1, 2, 3, 0)]
     return kind, [rng.choice(pool) for _ in range(n)]
 
 
